@@ -293,6 +293,7 @@ type parseEntry struct {
 }
 
 type tables struct {
+	envS, envM envs.Environment // where queries are evaluated: session-level re-evaluation / inside modifiers.Apply (nil: u.env)
 	u      *universe
 	in     *interner
 	parses []parseEntry
@@ -474,36 +475,43 @@ func (t *tables) coq() (string, []int) {
 		}
 	}
 	// date comparisons on last_seen_on: for every instant this case knows, what the real evaluator says
-	var seencmp []string
-	for k, q := range seenCmpQueries {
-		used := false
-		for _, g := range t.u.spec.Groups {
-			if strings.Contains(g.Coq, fmt.Sprintf("QLastSeenCmp %d", k)) {
-				used = true
+	seenTable := func(env envs.Environment) string {
+		if env == nil {
+			env = t.u.env
+		}
+		var rows []string
+		for k, q := range seenCmpQueries {
+			used := false
+			for _, g := range t.u.spec.Groups {
+				if strings.Contains(g.Coq, fmt.Sprintf("QLastSeenCmp %d", k)) {
+					used = true
+				}
 			}
-		}
-		if !used {
-			continue
-		}
-		parsed, err := contactql.ParseQuery(t.u.baseEnv, q, t.u.sa.Fields())
-		if err != nil {
-			panic(err)
-		}
-		var ids []int
-		for i, name := range t.in.names {
-			if !strings.HasPrefix(name, "t:") {
+			if !used {
 				continue
 			}
-			scratch, err := t.u.buildContact(&contactSpec{Status: "active", LastSeen: strings.TrimPrefix(name, "t:"), Fields: map[string]string{}})
+			parsed, err := contactql.ParseQuery(t.u.baseEnv, q, t.u.sa.Fields())
 			if err != nil {
 				panic(err)
 			}
-			if contactql.EvaluateQuery(t.u.env, parsed, scratch) {
-				ids = append(ids, i+1)
+			var ids []int
+			for i, name := range t.in.names {
+				if !strings.HasPrefix(name, "t:") {
+					continue
+				}
+				scratch, err := t.u.buildContact(&contactSpec{Status: "active", LastSeen: strings.TrimPrefix(name, "t:"), Fields: map[string]string{}})
+				if err != nil {
+					panic(err)
+				}
+				if contactql.EvaluateQuery(env, parsed, scratch) {
+					ids = append(ids, i+1)
+				}
 			}
+			rows = append(rows, fmt.Sprintf("(%d,%s)", k, coqListN(ids)))
 		}
-		seencmp = append(seencmp, fmt.Sprintf("(%d,%s)", k, coqListN(ids)))
+		return strings.Join(rows, ";")
 	}
+	seencmp, seencmpM := seenTable(t.envS), seenTable(t.envM)
 	gq := make([]string, len(t.u.spec.Groups))
 	for i, g := range t.u.spec.Groups {
 		switch {
@@ -515,9 +523,9 @@ func (t *tables) coq() (string, []int) {
 			gq[i] = fmt.Sprintf("(Some (QConst %s))", hx.Bool(t.consts[i]))
 		}
 	}
-	s := fmt.Sprintf("{| x_max := %d; x_norm := %s; x_valid := %s; x_ident := %s; x_scheme := %s;\n      x_setch := [%s]; x_tel := 1; x_urnchan := %s; x_cansend := %s; x_supports := [%s];\n      x_ftypes := [%s]; x_pnum := [%s]; x_pdt := [%s];\n      x_ploc := [%s];\n      x_seencmp := [%s];\n      x_groups := [%s] |}",
+	s := fmt.Sprintf("{| x_max := %d; x_norm := %s; x_valid := %s; x_ident := %s; x_scheme := %s;\n      x_setch := [%s]; x_tel := 1; x_urnchan := %s; x_cansend := %s; x_supports := [%s];\n      x_ftypes := [%s]; x_pnum := [%s]; x_pdt := [%s];\n      x_ploc := [%s];\n      x_seencmp := [%s]; x_seencmp_m := [%s];\n      x_groups := [%s] |}",
 		t.u.spec.MaxChars, pairs(norm), coqListN(valid), pairs(ident), pairs(scheme), strings.Join(sc, ";"), pairs(urnchan), coqListN(cansend), strings.Join(supports, ";"),
-		strings.Join(ft, ";"), strings.Join(pnum, ";"), strings.Join(pdt, ";"), strings.Join(ploc, ";\n        "), strings.Join(seencmp, ";"), strings.Join(gq, "; "))
+		strings.Join(ft, ";"), strings.Join(pnum, ";"), strings.Join(pdt, ";"), strings.Join(ploc, ";\n        "), seencmp, seencmpM, strings.Join(gq, "; "))
 	return s, urnIDs
 }
 
